@@ -138,7 +138,14 @@ fn i16v(r: &mut Rng) -> i16 {
     }
 }
 
+/// Lengths at which size fields and buffers change representation.
+pub const BOUNDARY_LENS: &[usize] = &[127, 128, 255, 256, 257, 1023, 1024, 4095, 4096, 8191, 8192, 8193, 65535, 65536, 65537];
+
 pub fn stringv(r: &mut Rng) -> String {
+    if r.chance(1, 60) {
+        let n = *r.pick(BOUNDARY_LENS);
+        return std::iter::repeat('b').take(n).collect();
+    }
     const FRAGS: &[&str] = &[
         "a", "Part", "hello world", "<", ">", "&", "\"", "'", "]]>", "<![CDATA[", "&amp;", "\n",
         "\t", " ", "é", "日本", "🦀", "\u{0}", "\u{1}", "\u{7f}", "\r\n", "null", "rbxassetid://",
@@ -172,6 +179,10 @@ pub fn stringv(r: &mut Rng) -> String {
 }
 
 pub fn bytesv(r: &mut Rng) -> Vec<u8> {
+    if r.chance(1, 60) {
+        let n = *r.pick(BOUNDARY_LENS);
+        return r.bytes(n);
+    }
     match r.below(6) {
         0 => Vec::new(),
         1 => vec![0],
